@@ -1471,3 +1471,30 @@ add("onref-15-moved-flag-negated", ["C05"], "countmin",
 add("onref-16-nlz-width-loop-starts-at-16", ["C02"], "hyperloglog",
     _on_refactor("QB02", ("hyperloglog", "    width = uint64(32)\n    while width >= two:", "    width = uint64(16)\n    while width >= two:")), None, rules=["nlz"],
     note="QB02's halving loop never probes the upper 32 bits")
+add("onref-17-two-phase-jump-not-deducted", ["C05"], "countmin",
+    _on_refactor("QF06", ("countmin", "        todo = todo - n_linear\n", "")), None, rules=["logstep"],
+    note="QF06's two-phase log counter: the deterministic jump is not deducted from the remaining budget, so more than `value` unit steps are taken")
+add("onref-18-two-phase-jump-ignores-budget", ["C18"], "countmin",
+    _on_refactor("QE06", ("countmin", "        n_linear = min(todo, linear_end - level)\n", "        n_linear = linear_end - level\n")), None, rules=["logstep", "nowrap", "range", "mono"],
+    note="QE06's jump always runs to the end of the exact range, whatever `value` is")
+add("onref-19-two-phase-loop-runs-past-ceiling", ["C18"], "countmin",
+    _on_refactor("QF06", ("countmin", "    while todo > uint64(0) and current < uint_maxval:", "    while todo > uint64(0) and current <= uint_maxval:")), None,
+    rules=["logstep", "range"], note="QF06's log phase may step a counter that already sits at the ceiling")
+add("onref-20-two-phase-jump-past-reserved-range", ["C06"], "countmin",
+    _on_refactor("QF06", ("countmin", "    linear_end = num_reserved\n", "    linear_end = num_reserved + uint16(8)\n")), None, rules=["logstep"],
+    note="QF06's deterministic jump runs 8 counters into the probabilistic range")
+add("onref-21-generator-scan-skips-count-one", ["C04"], "heavyhitters",
+    _on_refactor("QF13", ("heavyhitters", "            if self.lhh_count[row, column] != 0:", "            if self.lhh_count[row, column] > 1:")), None, rules=["scan-all"],
+    note="QF13's generator over the stored keys leaves out every bucket whose count is 1")
+add("onref-22-loader-list-built-one-short", ["C10"], "heavyhitters",
+    _on_refactor("QF10", ("heavyhitters", "            dims = [np.uint64(raw[i]) for i in range(3)]", "            dims = [np.uint64(raw[i]) for i in range(2)]")), None,
+    rules=["ctor-args"], note="QF10's constructor arguments gathered in a list: max_key_len is left out, phi slides into its place")
+add("onref-23-any-guard-drops-max-key-len", ["C15"], "heavyhitters",
+    _on_refactor("QF15", ("heavyhitters", '        required = ("width", "depth", "max_key_len")', '        required = ("width", "depth")')), None, rules=["guard-set"],
+    note="QF15's `any(getattr(...) != getattr(...) for name in required)` does not look at max_key_len")
+add("onref-24-callback-helper-failed-item-counts-one", ["C19"], "helpers",
+    _on_refactor("QF19", ("helpers", "        log_queue.put({\"level\": \"ERROR\", \"text\": msg})\n    return 0", "        log_queue.put({\"level\": \"ERROR\", \"text\": msg})\n    return 1")), None,
+    rules=["nrecs", "cb-guard"], note="QF19's _run_callback helper hands back 1 for an item whose callback raised")
+add("onref-25-plan-table-builds-hll-for-hh", ["C08"], "helpers",
+    _on_refactor("QF19", ("helpers", '        ("hh", HeavyHitters, hh_args, []),', '        ("hh", HyperLogLog, hh_args, []),')), None,
+    rules=["joinfirst", "attach-table", "argsdict", "rettable"], note="QF19's plan table pairs the tag 'hh' with the HyperLogLog constructor")
